@@ -23,7 +23,9 @@ RULE = ("RawSocket opening handshake: EVERY value of octets 1-2 (2^16) x {server
         "as server configuration and every client serializer on the magic row and the supported columns.  WebSocket: every pair of "
         "ordered serializer lists (length <=2 quick, <=3 thorough) over 9 serializer ids, real client<->server handshakes, plus raw "
         "handshakes with junk/foreign subprotocol names.  After attachment: generated tagged message sequences both ways under 6 "
-        "segmentation policies (library<->library and library<->raw octets), serialized lengths limit-1/limit/limit+1 for announced "
+        "segmentation policies plus bursts (2..6 data_received() calls inside one read event before the asyncio loop runs, cut between "
+        "frames / inside headers and payloads / both; delivery judged right after the last read event and again after the connection is "
+        "gone) (library<->library and library<->raw octets), serialized lengths limit-1/limit/limit+1 for announced "
         "exponents 2^9..2^24, corruption (frame type, opcode flip, garbage, truncation, non-list, unknown type, out-of-phase, session "
         "exceptions) at every position of a short conversation; mixed Twisted<->asyncio pairs (both role assignments) through a "
         "cross-process lockstep relay.  A case is non-trivial when its deciding monitor judged an outcome "
@@ -58,7 +60,7 @@ DECIDING = {
     "client_hello_checked": 1000, "ws_nego_common": 500, "ws_nego_nocommon": 500, "ws_frames_checked": 500,
     "stream_msgs_compared": 2000, "wire_frames_checked": 300, "limit_send_over": 40, "limit_send_within": 80,
     "limit_recv_within": 4, "limit_recv_over_rejected": 10, "corrupt_cases": 800, "corrupt_cases_closed_once": 700,
-    "ws_status_checked": 300, "rs_close_checked": 200, "onclose_checked": 100000, "mixed_delivered_ok": 60, "mixed_refused": 4, "open_raise_onclose_checked": 100,
+    "ws_status_checked": 300, "rs_close_checked": 200, "onclose_checked": 100000, "mixed_delivered_ok": 60, "mixed_refused": 4, "open_raise_onclose_checked": 100, "aio_bursts_delivered": 200,
 }
 
 BASE = ["json", "msgpack", "cbor", "ubjson"]
@@ -66,6 +68,8 @@ WS_IDS = ["json", "json.batched", "msgpack", "msgpack.batched", "cbor", "cbor.ba
 RESERVED_QUICK = [(0, 0), (0, 1), (1, 0), (0xFF, 0xFF), (0x80, 0)]
 RESERVED_THOROUGH = RESERVED_QUICK + [(0, 0x80), (0x7F, 0x7F), (0, 0xFF), (0x10, 0x02)]
 POLICIES = ["whole", "bytewise", "random", "halves", "small", "edges"]
+# + bursts: 2..6 data_received() calls inside ONE read event before the loop runs (asyncio; allowed by the Protocol contract)
+STREAM_POLICIES = POLICIES + ["burst", "burst"]
 
 
 # ------------------------------------------------------------------------------------------------------------
@@ -206,7 +210,7 @@ def gen_streams(tier, seed, fw):
     for rep in range(reps):
         for tr in ("rs", "ws"):
             for ser in sers:
-                for pol in POLICIES:
+                for pol in STREAM_POLICIES:
                     big = 70000 if rng.random() < 0.25 else 0
                     ssers = [ser] if "." in ser else rng.choice([BASE, [ser], rng.sample(BASE, 2) + [ser]])
                     n1, n2 = rng.randint(1, 8), rng.randint(0, 8)
@@ -218,7 +222,8 @@ def gen_streams(tier, seed, fw):
                     for role in ("server", "client"):
                         yield {"kind": "raw-stream", "tr": tr, "role": role, "ser": ser, "inbound": S.gen_specs(rng, rng.randint(1, 7), "i", big),
                                "outbound": S.gen_specs(rng, rng.randint(0, 5), "o"), "policy": pol, "seed": rng.randint(0, 10 ** 6),
-                               "fragment": rng.choice([0, 1])}
+                               "fragment": rng.choice([0, 1]), "burst_mode": rng.choice(["boundaries", "inside", "mixed"]),
+                               "burst_glue_handshake": rng.random() < 0.5}
 
 
 def gen_limits(tier, seed, fw, part, parts):
@@ -318,7 +323,7 @@ def gen_mixed(tier, seed, fw):
             sers = BASE + (["json.batched", "msgpack.batched"] if tr == "ws" else [])
             for ser in sers:
                 for lr in ("client", "server"):
-                    for pol in POLICIES:
+                    for pol in POLICIES + ["burst"]:
                         cser = [ser] if tr == "rs" or rng.random() < 0.5 else rng.sample([x for x in WS_IDS if x != "flatbuffers"], 2) + [ser]
                         ssers = [ser] if "." in ser else rng.choice([BASE, [ser], [ser] + rng.sample(BASE, 1)])
                         yield {"kind": "mixed", "tr": tr, "local_role": lr, "cser": list(dict.fromkeys(cser)), "ssers": list(dict.fromkeys(ssers)),
@@ -489,7 +494,7 @@ MANIFEST_ENTRY = {
              "1-2 (plus reserved-octet variants) under every split of the 4 octets, no exception reaching the framework during a "
              "handshake; WebSocket subprotocol = first of the client's list the server supports for all pairs of ordered serializer lists "
              "(<=2, thorough <=3), same serializer and text/binary framing on the wire at both ends, no session without a common "
-             "wamp.2.*; tagged message sequences delivered intact and in order under 6 segmentation policies; for announced maxima "
+             "wamp.2.*; tagged message sequences delivered intact and in order under 6 segmentation policies and under bursts of several data_received() calls per read event; for announced maxima "
              "2^9..2^24 nothing longer than the peer's maximum is written (sender gets an error) and an over-limit incoming frame is "
              "rejected at its header; every injected corruption (frame type, opcode flip, garbage/truncated/non-list payload, unknown "
              "message type, out-of-phase message, session exception) ends with the transport closed (WebSocket 1002/1011) and "
